@@ -80,12 +80,12 @@ theorem C36_commit_ts_exact (d : Db) (id mts cts : Nat) (t : TxnM) (hm : d.opts.
 /-- a zero commit timestamp is refused when transaction markers would be written -/
 theorem C36_zero_commit_ts (d : Db) (id : Nat) (t : TxnM) (hm : d.opts.managed = true)
     (hf : d.findTxn id = some t) (hp : t.pending ≠ []) (hd : t.discarded = false)
-    (hv : ∀ e ∈ t.pending ++ t.dups, e.ver = 0) :
+    (hv : ∀ e ∈ t.pending, e.ver = 0) :
     d.commit id 0 = (d, .err "err:zerocommitts") := by
   rw [commit_eq 0 hf]
   have h1 : t.pending.isEmpty = false := by cases h : t.pending <;> simp_all
-  have h2 : keepTogetherOf t = true := by
-    simp only [keepTogetherOf, List.all_eq_true, beq_iff_eq]; exact hv
+  have h2 : keepPreOf t = true := by
+    simp only [keepPreOf, List.all_eq_true, beq_iff_eq]; exact hv
   simp [h1, hd, h2, hm]
 
 /-- `SetDiscardTs` (the `setdiscard` step: assignment + `cleanupCommittedTransactions`) changes
